@@ -140,7 +140,7 @@ Proof. do 3 eexists. split; [vm_compute; reflexivity|]. repeat split; vm_compute
 
 Example C19_example_chain :
   exists st, chain_wf 3 0 ex_chain /\ chain_run true 3 (cinit 1) ex_chain = Ok st /\
-             c_top st = 6 /\ length (w_unspent (c_w st)) = 2%nat /\ length (c_committed st) = 1%nat.
+             c_top st = 6 /\ length (w_unspent (c_w st)) = 2%nat /\ length (c_committed st) = 2%nat.
 Proof. eexists. split; [exact ex_chain_wf|]. split; [vm_compute; reflexivity|repeat split; reflexivity]. Qed.
 
 Print Assumptions C19_balance_is_sum.
